@@ -133,6 +133,10 @@ def run(tier, seed, mutant=None, only_validate=False):
             traces[i] = (r, t)
         glist = [("buffer n=%s %s%s" % (c.get("n"), c["cons"][0], " faults" if c.get("faults") else ""), consts_of(c), ts) for c, ts in groups.values()]
         reached, problems = amod.validate_groups(work, "AsyncBufferTrace", glist)
+        nredo = amod.second_pass(work, "AsyncBufferTrace", consts_of, traces, reached, dict(getattr(amod.validate_groups, "unsafe", {})),
+                                 dict(getattr(amod.validate_groups, "over", {})), group_key=lambda c: str(sorted(c.items())))
+        if nredo:
+            res.notes.append("%d traces were rejected at an observation of private state and validated again on behaviour alone" % nredo)
         res.traces = len(runs)
         res.evaluations = sum(len(t[1]) for t in traces.values())
         for name, kind, detail in problems:
@@ -154,8 +158,14 @@ def run(tier, seed, mutant=None, only_validate=False):
                     nontriv.add(sched + str(r["cfg"]))
             else:
                 prop, why = attribute(r, t, got[0])
+                also = ["C05"] if prop == "C04" else []
+                if r["cfg"]["kind"] == "delay" and prop == "C02":
+                    also.append("C13")          # delay preserves order and count (C13) as well
+                if prop not in ("C05", "C04") and amod.leaked(r):
+                    also.append("C05")
+                    why += "; at the end the counters of elements %s are not zero although nothing holds them" % amod.leaked(r)
                 res.violations.append(dict(
-                    property=prop, also=["C05"] if prop == "C04" else [], engine="abuffer",
+                    property=prop, also=also, engine="abuffer",
                     clause=t[got[0] - 1]["ev"] if got[0] <= len(t) else "end",
                     what="buffer(%s) consumer=%s schedule '%s': event #%d %s -- %s" % (
                         r["cfg"].get("n"), r["cfg"]["cons"][0], " ".join(r["schedule"]), got[0],
